@@ -25,8 +25,11 @@
 //     a "fill" Write). The body is then no longer a prefix of the pattern; the model keeps the list
 //     of pattern spans. Quick tier: the whole family where a positive Content-Length is declared (the
 //     only situation in which nbio may take the sendfile path), the reduced family {0, 1, beyond the
-//     end} on a connection without Sendfile, the empty segment elsewhere; a displaced segment is
-//     only completed (fill, Flush), not expanded further. Thorough: everything everywhere.
+//     end} on a connection without Sendfile, the empty segment and "limit 1 at the end of the file"
+//     (on a connection with Sendfile) elsewhere; a displaced segment is
+//     only completed (fill, Flush), not expanded further. Thorough: the whole family on every
+//     connection kind where a Content-Length is declared, {0, 1, beyond the end, limit 1 at the end
+//     of the file} elsewhere, displaced states expanded (respgen.Config.RFXWide).
 //   - programs that read from a file are, on the two keep-alive request versions, followed by a
 //     second pipelined request on the same connection whose handler answers a fixed response: what
 //     the first response puts on the wire beyond its framing is seen in front of the second one.
@@ -124,6 +127,12 @@ func run(tier string, sh *vkit.Shard, p *vkit.Part) {
 	if tier == "thorough" {
 		cfg = respgen.ThoroughConfig().WithFileSegments(true)
 		limit = 17 * time.Minute
+	}
+	if os.Getenv("VERIF_C09_NORFX") != "" { // development: the alphabet without the file-segment family
+		cfg = respgen.QuickConfig()
+		if tier == "thorough" {
+			cfg = respgen.ThoroughConfig()
+		}
 	}
 	if d := os.Getenv("VERIF_C09_DEPTH"); d != "" {
 		fmt.Sscanf(d, "%d", &cfg.Depth)
